@@ -515,7 +515,40 @@ def mutate_live(rnd, gt, sp, nodes, aux_values, count):
             return _u.UUID(int=r.getrandbits(128))
 
     for _ in range(count):
-        k = rnd.randrange(9)
+        k = rnd.randrange(11)
+        if k >= 9:
+            # a node taken out of its parent, given another UUID, and put
+            # back: everything that refers to it refers to the object, so
+            # the next file must carry the new UUID at every site
+            from . import perturb
+            import json as _json
+            import uuid as _uuid
+            cands = []
+            for m in sp["modules"]:
+                cands += [(p["uuid"], "module") for p in m["proxies"]]
+                cands += [(y["uuid"], "module") for y in m["symbols"]]
+                for s_ in m["sections"]:
+                    cands.append((s_["uuid"], "module"))
+                    for bi in s_["intervals"]:
+                        cands.append((bi["uuid"], "section"))
+                        cands += [(b["uuid"], "byte_interval")
+                                  for b in bi["blocks"]]
+            auxtext = _json.dumps([sp["aux"]] + [m["aux"]
+                                                 for m in sp["modules"]])
+            cands = [c for c in cands if c[0] not in auxtext]
+            if not cands:
+                continue
+            old, attr = rnd.choice(cands)
+            new = "%032x" % rnd.getrandbits(128)
+            o = nodes[old]
+            parent = getattr(o, attr)
+            setattr(o, attr, None)
+            o.uuid = _uuid.UUID(hex=new)
+            setattr(o, attr, parent)
+            sp = perturb.rename_uuid(sp, old, new)
+            nodes[new] = nodes.pop(old)
+            done.append("uuid-reassigned-while-detached:" + type(o).__name__)
+            continue
         if k <= 2 and aux_values:
             (hu, key), (v, t) = rnd.choice(sorted(
                 aux_values.items(), key=lambda kv: kv[0]))
